@@ -226,6 +226,7 @@ package nbio
 //@   ensures errkeep: result1 != nil ==> pend(c) == old(pend(c)) && c.left == old(c.left) && len(c.writeList) == old(len(c.writeList))  // prop C01 C17
 //@   ensures errsent: result1 != nil ==> kSent[c.fd] == old(kSent[c.fd])                                             // prop C01
 //@   ensures ovf: maxw(c) > 0 && old(c.left) + total(in) > maxw(c) ==> result1 == errOverflow                        // prop C17
+//@   ensures fits: !(maxw(c) > 0 && old(c.left) + total(in) > maxw(c)) ==> result1 != errOverflow                     // prop C17
 //@   ensures bound: maxw(c) > 0 && old(c.left) <= maxw(c) ==> c.left <= maxw(c)                                      // prop C17
 //@   ensures inv: QueueInv(c)                                                                                        // prop C01 C11
 //@   assigns kSent[c.fd], c.left, c.gTail, c.gBTail, c.writeList, toWrite.gEnd, toWrite.gBEnd, toWrite.gSeq, bufOwner, liveP, toWrite.buf, toWrite.offset, toWrite.fd, toWrite.remain, allelems("*toWrite"), allboxes("[]byte"), allelems("byte"), allocates
